@@ -143,12 +143,19 @@ class CMod:
     def argnames(self, fname):
         return list(self.lib.protos[fname])
 
-    def call(self, fname, pt, dt=None, missing=None, raw=False):
+    def call(self, fname, pt, dt=None, missing=None, raw=False, nout=None):
         s, p, _ = self.arrays(pt)
-        nout = self.nout.get(fname, len(self._index["state"]))
+        if nout is None:
+            nout = self.nout.get(fname, len(self._index["state"]))
         kw = {"states": s, "parameters": p, "t": float(pt["t"])}
         if dt is not None:
             kw["dt"] = float(dt)
+        if "missing_variables" in self.lib.protos.get(fname, []):
+            midx = self._index.get("missing", {})
+            m = np.zeros(max(len(midx), 1), dtype=np.float64)
+            for k, i in midx.items():
+                m[i] = missing[k]
+            kw["missing_variables"] = m
         return self.lib.call(fname, nout, **kw)
 
     def init(self, which: str):
